@@ -309,6 +309,9 @@ namespace sqf::runtime
     private:
         runtime_conf m_configuration;
         std::chrono::system_clock::time_point m_runtime_timestamp;
+        // Point in time the current (or last) run was started at; the
+        // max_runtime budget is measured from here.
+        std::chrono::system_clock::time_point m_run_timestamp;
         bool m_runtime_error;
 
         std::chrono::system_clock::time_point m_created_timestamp;
@@ -338,6 +341,7 @@ namespace sqf::runtime
 #else
             m_runtime_timestamp(std::chrono::system_clock::now()),
 #endif
+            m_run_timestamp(m_runtime_timestamp),
             m_runtime_error(false),
             m_created_timestamp(m_runtime_timestamp),
             m_confighost(),
@@ -352,6 +356,12 @@ namespace sqf::runtime
         sqf::runtime::runtime::result execute(sqf::runtime::runtime::action action);
         sqf::runtime::runtime::runtime_conf& configuration() { return m_configuration; }
         std::chrono::system_clock::time_point runtime_timestamp() { return m_runtime_timestamp; }
+        std::chrono::system_clock::time_point run_timestamp() { return m_run_timestamp; }
+#ifdef SQFVM_RUNTIME_VERIF
+        void run_timestamp_reset() { m_run_timestamp = sqf::runtime::verif::now(); }
+#else
+        void run_timestamp_reset() { m_run_timestamp = std::chrono::system_clock::now(); }
+#endif
 #ifdef SQFVM_RUNTIME_VERIF
         void runtime_timestamp_reset() { m_runtime_timestamp = sqf::runtime::verif::now(); }
 #else
